@@ -28,7 +28,7 @@ func init() {
 			"(operators.Get + Evaluate on a real transaction with an intercepted capture interface; a stated subset again through a two-rule WAF `@op arg` / `!@op arg` with capture); " +
 			"evaluations = operator evaluations + rule-mode transactions; distinct_nontrivial = distinct (operator, argument) units for which both verdicts (match and no match) were observed over the unit's inputs",
 		Assumptions: []string{
-			"Go's regexp (for @rx), strconv, net/netip and unicode/utf8-independent hand-written tables are the trusted base of the oracle",
+			"trusted base of the oracle: Go's regexp (for @rx only), strconv.ParseInt, net/netip; everything else is a hand-written naive definition (substring search, ASCII folding, byte tables, %XX scan, RFC 3629 table)",
 			"where the documentation does not fix the answer the case is executed (totality) but not asserted: non-integer operands of the numeric operators, ^/$ when (?s) and (?sm) disagree, \\xNN (>=0x80) escapes where the byte and the rune reading disagree, IPv4-mapped IPv6 against IPv4 networks, @pm captures when candidate occurrences overlap (only 'each capture is an occurrence' is asserted then)",
 			"SecLang text handling of the argument (quoting, trimming) belongs to C16: rule-mode arguments are restricted to bytes the parser passes through unchanged",
 		},
@@ -191,8 +191,8 @@ type spec struct {
 	// parts, when set, lists earlier (smaller) inputs of the same unit whose
 	// failure explains a failure on in; the failure is then reported under
 	// their signature (one root cause, one signature).
-	parts func(in string) []string
-	wantFn   func(input string, capture bool) *want
+	parts  func(in string) []string
+	wantFn func(input string, capture bool) *want
 }
 
 // judge compares one observation with the oracle. Returns skip reason,
